@@ -1,6 +1,8 @@
 package astvalidation
 
 import (
+	"bytes"
+
 	"github.com/wundergraph/graphql-go-tools/v2/pkg/ast"
 	"github.com/wundergraph/graphql-go-tools/v2/pkg/astvisitor"
 	"github.com/wundergraph/graphql-go-tools/v2/pkg/operationreport"
@@ -20,18 +22,56 @@ type subscriptionSingleRootFieldVisitor struct {
 
 func (s *subscriptionSingleRootFieldVisitor) EnterDocument(operation, definition *ast.Document) {
 	for i := range operation.OperationDefinitions {
-		if operation.OperationDefinitions[i].OperationType == ast.OperationTypeSubscription {
-			selections := len(operation.SelectionSets[operation.OperationDefinitions[i].SelectionSet].SelectionRefs)
-			if selections > 1 {
-				subscriptionName := operation.Input.ByteSlice(operation.OperationDefinitions[i].Name)
-				s.StopWithExternalErr(operationreport.ErrSubscriptionMustOnlyHaveOneRootSelection(subscriptionName))
-				return
-			} else if selections == 1 {
-				ref := operation.SelectionSets[operation.OperationDefinitions[i].SelectionSet].SelectionRefs[0]
-				if operation.Selections[ref].Kind == ast.SelectionKindField {
-					return
-				}
-			}
+		if operation.OperationDefinitions[i].OperationType != ast.OperationTypeSubscription || !operation.OperationDefinitions[i].HasSelections {
+			continue
+		}
+		// The root fields are the fields of the operation's selection set, wherever they are written:
+		// directly, inside an inline fragment (one that carries a directive is not flattened by
+		// normalization) or behind a fragment spread.
+		fields, introspection := s.rootFields(operation, operation.OperationDefinitions[i].SelectionSet, 0)
+		subscriptionName := operation.Input.ByteSlice(operation.OperationDefinitions[i].Name)
+		if fields > 1 {
+			s.StopWithExternalErr(operationreport.ErrSubscriptionMustOnlyHaveOneRootSelection(subscriptionName))
+			return
+		}
+		if introspection {
+			s.StopWithExternalErr(operationreport.ErrSubscriptionRootFieldMustNotBeIntrospectionField(subscriptionName))
+			return
 		}
 	}
+}
+
+// maxRootFieldFragmentDepth bounds the descent through fragments (fragment cycles are reported by another rule)
+const maxRootFieldFragmentDepth = 32
+
+func (s *subscriptionSingleRootFieldVisitor) rootFields(operation *ast.Document, selectionSet int, depth int) (fields int, introspection bool) {
+	if depth > maxRootFieldFragmentDepth {
+		return 0, false
+	}
+	for _, ref := range operation.SelectionSets[selectionSet].SelectionRefs {
+		selection := operation.Selections[ref]
+		switch selection.Kind {
+		case ast.SelectionKindField:
+			fields++
+			if bytes.HasPrefix(operation.FieldNameBytes(selection.Ref), []byte("__")) {
+				introspection = true
+			}
+		case ast.SelectionKindInlineFragment:
+			if !operation.InlineFragments[selection.Ref].HasSelections {
+				continue
+			}
+			nestedFields, nestedIntrospection := s.rootFields(operation, operation.InlineFragments[selection.Ref].SelectionSet, depth+1)
+			fields += nestedFields
+			introspection = introspection || nestedIntrospection
+		case ast.SelectionKindFragmentSpread:
+			fragment, exists := operation.FragmentDefinitionRef(operation.FragmentSpreadNameBytes(selection.Ref))
+			if !exists || !operation.FragmentDefinitions[fragment].HasSelections {
+				continue
+			}
+			nestedFields, nestedIntrospection := s.rootFields(operation, operation.FragmentDefinitions[fragment].SelectionSet, depth+1)
+			fields += nestedFields
+			introspection = introspection || nestedIntrospection
+		}
+	}
+	return fields, introspection
 }
